@@ -117,6 +117,7 @@ type StateProg struct {
 	GoNames []string // Go field name per schema field
 	Init    []byte
 	Steps   []ProgStep
+	EmptyBalancesFirst bool // the second step is SetBalances of the empty list (boundary value of a whole-list setter)
 	Getters map[string]int // getter -> times compared
 	Setters map[string]int
 }
@@ -295,6 +296,33 @@ func le64(v uint64) []byte {
 	return b
 }
 
+// setWholeFieldEmpty: the typed setter of a list field with the empty list (boundary value), on view 0.
+func (p *StateProg) setWholeFieldEmpty(field string) (desc string, coq string, err error) {
+	k := p.fieldIndex(field)
+	if k < 0 {
+		return "", "", fmt.Errorf("no field %s", field)
+	}
+	name := p.GoNames[k]
+	m := reflect.ValueOf(p.Typed[0]).MethodByName("Set" + name)
+	if !m.IsValid() || m.Type().NumIn() != 1 {
+		return "", "", fmt.Errorf("no setter Set%s", name)
+	}
+	g := NewGen(p.En.R.Fork(), 0)
+	g.Mode = 1
+	nv := g.Tree(p.Shadows[0].Elems[k].T)
+	arg, aerr := p.argOf(m.Type().In(0), k, nv.Bytes())
+	if aerr != nil {
+		return "", "", aerr
+	}
+	out := m.Call([]reflect.Value{arg})
+	if len(out) == 1 && !out[0].IsNil() {
+		return "", "", fmt.Errorf("Set%s(empty): %v", name, out[0].Interface())
+	}
+	p.Shadows[0].Elems[k] = nv
+	p.Setters["Set"+name+"(empty)"]++
+	return fmt.Sprintf("v0.Set%s(empty)", name), fmt.Sprintf("TSet 0 %d \"%s\"", k, hex.EncodeToString(nv.Bytes())), nil
+}
+
 // Step: one accessor operation on a random live view. Returns the changed (view, field) or a copy.
 func (p *StateProg) Step() (desc string, coq string, err error) {
 	r := p.En.R
@@ -315,6 +343,12 @@ func (p *StateProg) Step() (desc string, coq string, err error) {
 				continue
 			}
 			nv := p.En.newVal(sh.Elems[k].T)
+			if r.Chance(30) {
+				// boundary: the all-empty / all-zero value of the field (e.g. SetBalances of an empty list)
+				g := NewGen(r.Fork(), 0)
+				g.Mode = 1
+				nv = g.Tree(sh.Elems[k].T)
+			}
 			arg, aerr := p.argOf(m.Type().In(0), k, nv.Bytes())
 			if aerr != nil {
 				return "", "", fmt.Errorf("Set%s: cannot build argument: %v", name, aerr)
@@ -640,7 +674,13 @@ func (p *StateProg) Run(n int) {
 	for i := 0; i < n; i++ {
 		var desc, coq string
 		var err error
-		pan, pv := hx.Catch(func() { desc, coq, err = p.Step() })
+		pan, pv := hx.Catch(func() {
+			if i == 1 && p.EmptyBalancesFirst {
+				desc, coq, err = p.setWholeFieldEmpty("balances")
+			} else {
+				desc, coq, err = p.Step()
+			}
+		})
 		if pan {
 			err = fmt.Errorf("panic: %v", pv)
 		}
@@ -650,7 +690,15 @@ func (p *StateProg) Run(n int) {
 			p.Steps = append(p.Steps, ProgStep{Desc: "FAILED: " + err.Error(), Coq: "TCopy 0", Obs: obs, GoOK: false, Notes: append(notes, err.Error())})
 			return
 		}
-		obs, ok, notes := p.Observe()
+		var obs []ViewObs
+		var ok bool
+		var notes []string
+		pan, pv = hx.Catch(func() { obs, ok, notes = p.Observe() })
+		if pan {
+			// a crash while reading the state back (e.g. inside ztyp's MerkleRoot): the step is recorded as failing
+			p.Steps = append(p.Steps, ProgStep{Desc: desc, Coq: coq, Obs: nil, GoOK: false, Notes: []string{fmt.Sprint("panic while observing the views after this step: ", pv)}})
+			return
+		}
 		p.Steps = append(p.Steps, ProgStep{Desc: desc, Coq: coq, Obs: obs, GoOK: ok, Notes: notes})
 	}
 }
